@@ -365,7 +365,16 @@ func checkOnce(t *T, prop func(*T)) (err *testError) {
 	if t.tbLog {
 		t.tb.Helper()
 	}
-	defer func() { err = panicToError(recover(), 3) }()
+	defer func() {
+		err = panicToError(recover(), 3)
+		if err == nil || err.isInvalidData() {
+			// A non-fatal failure signalled after prop has returned or skipped
+			// (e.g. from a Cleanup function) belongs to this test case, not to the next one.
+			if late := t.lateFailure(); late != nil {
+				err = late
+			}
+		}
+	}()
 
 	defer t.cleanup()
 	prop(t)
@@ -769,6 +778,7 @@ func (t *T) Failed() bool {
 }
 
 func (t *T) skip(msg string) {
+	t.failOnError() // a test case that has already failed can not be skipped
 	panic(invalidData(msg))
 }
 
@@ -789,4 +799,19 @@ func (t *T) failOnError() {
 	if t.failed != "" {
 		panic(t.failed)
 	}
+}
+
+// lateFailure reports (and forgets) a failure that has been signalled
+// but has not stopped the test case yet.
+func (t *T) lateFailure() (err *testError) {
+	defer func() {
+		err = panicToError(recover(), 3)
+		t.mu.Lock()
+		t.failed = ""
+		t.mu.Unlock()
+	}()
+
+	t.failOnError()
+
+	return nil
 }
